@@ -29,7 +29,22 @@ pub fn cut(rng: &mut Rng, data: &[u8], style: u64) -> Vec<Vec<u8>> {
 }
 
 /// D steps for one request (head and body segmented independently, or glued) followed by R
+/// one request in four uses another public entry point with the same behaviour (see the route list of s_conn)
+fn vary(rng: &mut Rng, r: &Req) -> Req {
+    let mut r = Req { method: r.method, path: r.path.clone(), fields: r.fields.clone(), body: r.body.clone() };
+    if !rng.chance(1, 4) { return r; }
+    let (p, q) = match r.path.split_once('?') { Some((p, q)) => (p.to_string(), format!("?{q}")), None => (r.path.clone(), String::new()) };
+    let np = match p.as_str() {
+        "/all" => Some(*rng.pick(&["/allparts", "/allvec"])),
+        "/close" => Some(*rng.pick(&["/closev", "/closes"])),
+        "/none" if q.is_empty() => Some("/empty0"),
+        _ => None };
+    if let Some(np) = np { r.path = format!("{np}{q}"); }
+    r
+}
+
 pub fn exchange(rng: &mut Rng, r: &Req, glue: bool) -> Vec<String> {
+    let r = &vary(rng, r);
     let head = r.head();
     let mut steps = Vec::new();
     if glue {
